@@ -36,6 +36,75 @@ coroutine_local!(static K2: Counted = {
 /// `n` coroutines set / yield / get both keys `rounds` times; the main thread uses the keys in thread context
 /// `timed`: the coroutines sleep (1 ms) or let a park time out instead of yielding, so that they continue on the timer
 /// thread - a thread that is not a worker - until their next yield
+/// `stacks`: how coroutine i is spawned - 0 = go! (pooled default stack), otherwise Builder::stack_size(that many bytes)
+/// (a stack of its own size is not pooled: the coroutine's storage is freed on another path), odd entries also named;
+/// the ends differ too: coroutine 1 panics at the end, coroutine 2 is cancelled in a final park
+fn privacy_spawn_kinds(e: &'static Engine, workers: usize, stacks: &'static [usize]) {
+    rt_init(workers);
+    static PARKED: AtomicBool = AtomicBool::new(false);
+    e.begin();
+    let n = stacks.len();
+    let mut hs = vec![];
+    for (i, sz) in stacks.iter().enumerate() {
+        let body = move || {
+            let id = 100 + i as u32;
+            if K1.with(|c| c.get()) != 7 || K2.with(|c| c.0.get()) != 70 {
+                BAD.fetch_add(1, Ordering::SeqCst);
+            }
+            K1.with(|c| c.set(id));
+            K2.with(|c| c.0.set(id * 2));
+            coroutine::yield_now();
+            if K1.with(|c| c.get()) != id || K2.with(|c| c.0.get()) != id * 2 {
+                BAD.fetch_add(1, Ordering::SeqCst);
+            }
+            match i {
+                1 => std::panic::panic_any(OwnPayload(1)),
+                2 => {
+                    PARKED.store(true, Ordering::SeqCst);
+                    loop {
+                        coroutine::park();
+                    }
+                }
+                _ => {}
+            }
+        };
+        let h = if *sz == 0 {
+            go!(body)
+        } else {
+            let b = coroutine::Builder::new().stack_size(*sz);
+            let b = if i % 2 == 1 { b.name(format!("named{}", i)) } else { b };
+            unsafe { b.spawn(body) }.expect("spawn")
+        };
+        hs.push(h);
+    }
+    if n > 2 {
+        e.wait_flag(&PARKED);
+        e.quiesce();
+        unsafe { hs[2].coroutine().cancel() };
+    }
+    for (i, h) in hs.into_iter().enumerate() {
+        match (i, h.join()) {
+            (1, Err(p)) if p.downcast_ref::<OwnPayload>().is_some() => {}
+            (2, Err(p)) if p.downcast_ref::<generator::Error>().is_some() => {}
+            (1, _) | (2, _) => e.fail("join_result", &format!("coroutine {} did not end the way it was made to", i)),
+            (_, Ok(())) => {}
+            (_, Err(_)) => e.fail("unexpected_panic", "a coroutine panicked"),
+        }
+    }
+    e.quiesce();
+    if BAD.load(Ordering::SeqCst) != 0 {
+        e.fail("local_private", "a coroutine saw a local value it did not write (or not the initial value first)");
+    }
+    let (i1, i2, d) = (INITS1.load(Ordering::SeqCst), INITS2.load(Ordering::SeqCst), LOCAL_DROPS.load(Ordering::SeqCst));
+    if i1 != n as u32 || i2 != n as u32 {
+        e.fail("init_once", &format!("initialisers ran {} / {} times for {} coroutines", i1, i2, n));
+    }
+    if d != n as u32 {
+        e.fail("local_dropped_once", &format!("{} local values dropped after {} coroutines ended (stack sizes {:?}, 0 = default)", d, n, stacks));
+    }
+    e.note(&format!("inits={}/{} drops={}", i1, i2, d));
+}
+
 fn privacy(e: &'static Engine, workers: usize, n: usize, rounds: usize, timed: bool) {
     rt_init(workers);
     e.begin();
@@ -284,6 +353,10 @@ pub fn build(quick: bool) -> Vec<Scenario> {
     v.push(Scenario::new("C15", "privacy", "local.privacy.n3.r1.w2", Arc::new(|e| privacy(e, 2, 3, 1, false))));
     v.push(Scenario::new("C15", "privacy", "local.privacy.timed_waits.n2.r2.w1", Arc::new(|e| privacy(e, 1, 2, 2, true))));
     v.push(Scenario::new("C15", "privacy", "local.privacy.timed_waits.n2.r2.w2", Arc::new(|e| privacy(e, 2, 2, 2, true))));
+    // spawn kinds: pooled default stacks next to stacks of their own size (named / unnamed), ending by return, panic, cancel
+    v.push(Scenario::new("C15", "privacy_spawn_kinds", "local.spawn_kinds.default_0x2000_0x3000.w1", Arc::new(|e| privacy_spawn_kinds(e, 1, &[0, 0x2000, 0x3000]))));
+    v.push(Scenario::new("C15", "privacy_spawn_kinds", "local.spawn_kinds.0x2000_default_0x2000.w2", Arc::new(|e| privacy_spawn_kinds(e, 2, &[0x2000, 0, 0x2000]))));
+    v.push(Scenario::new("C15", "privacy_spawn_kinds", "local.spawn_kinds.0x8000_0x8000.w1", Arc::new(|e| privacy_spawn_kinds(e, 1, &[0x8000, 0x8000]))));
     for prev in [
         Prev::Returned,
         Prev::Panicked,
